@@ -62,7 +62,7 @@ def signature_of(lines, impl, model, diff):
 
 
 def run(ctx):
-    sched_suite.run_suite(ctx, PROF, ctx.scale(600, 30000), "c06", [limit_oracle], nontrivial, signature_of)
+    sched_suite.run_suite(ctx, PROF, ctx.scale(2500, 150000), "c06", [limit_oracle], nontrivial, signature_of)
 
 
 def replay(ctx, payload):
